@@ -420,6 +420,20 @@ func genGrammar(c *ctx, s *schema, which string) {
 		}
 	}
 	chunk("precDecl"+sfx, "(Nat × Nat × Nat)", precs)
+	// the same by name, and the %prec annotations, for the comparison with PHP's table (Spec/Precedence.lean)
+	var pn, pp []string
+	for lvl, l := range g.Prec {
+		for _, x := range l[1:] {
+			pn = append(pn, fmt.Sprintf("(%d, %q, %q)", lvl+1, l[0], x))
+		}
+	}
+	for _, p := range g.Prods {
+		if p.Prec != "" {
+			pp = append(pp, fmt.Sprintf("(%q, %q)", p.Lhs+": "+strings.Join(p.Rhs, " "), p.Prec))
+		}
+	}
+	fmt.Fprintf(&b, "def precNames%s : List (Nat × String × String) := [\n  %s]\n", sfx, strings.Join(pn, ",\n  "))
+	fmt.Fprintf(&b, "def prodPrecs%s : List (String × String) := [%s]\n", sfx, strings.Join(pp, ", "))
 	b.WriteString("\nend PhpVerif.Gen\n")
 	writeIfChanged(filepath.Join(c.out, "Grammar"+sfx+".lean"), b.String())
 	// pairs of identically spelled productions (emitted with the second grammar)
